@@ -138,7 +138,7 @@ func c19Known(want influxql.Statement) string { return "" }
 func checkC19(c *Ctx) (string, bool, []string) {
 	r := c.R
 	rule := "every clause subset of all 44 statement kinds (exhaustive, seed-independent in structure): RequiredPrivileges must return a non-empty list without error, with an admin entry for every administrative kind; SELECT and EXPLAIN [ANALYZE] [VERBOSE] SELECT with 1-3 sources of every form (m, rp.m, db.rp.m, db..m, regex forms, subqueries nested to depth 5) and every INTO form: a read privilege for the database of every measurement at any depth, a write privilege for the INTO database. Non-trivial = statement has at least one database name or optional clause; distinct by text."
-	assume := []string{"the generator gives every database slot of one statement a different name, so a missing entry cannot be masked by another source", "an empty database name stands for the default database and must be listed as such"}
+	assume := []string{"in half of the SELECT cases the generator gives every database slot of one statement a different name, so a missing entry cannot be masked by another source; in the other half databases come from a pool of three and subqueries may carry INTO clauses, so the same database is written and read at several depths in either order", "an empty database name stands for the default database and must be listed as such"}
 	if c.Replay != nil {
 		opt := gen.Opts{}
 		kind, mask := replayInt(c, "kind_index"), replayInt(c, "mask")
@@ -149,6 +149,9 @@ func checkC19(c *Ctx) (string, bool, []string) {
 			layout = "minimal"
 		case "select":
 			opt = gen.Opts{SubqDepth: 5, SubqProb: 0.5, MaxDepth: 1}
+			mask = -1
+		case "select-few-dbs":
+			opt = gen.Opts{SubqDepth: 5, SubqProb: 0.5, MaxDepth: 1, FewDBs: true, SubqInto: 0.3}
 			mask = -1
 		}
 		gc := genCase(c.Seed, replayStr(c, "label"), replayInt(c, "idx"), kind, mask, opt, layout)
@@ -174,8 +177,18 @@ func checkC19(c *Ctx) (string, bool, []string) {
 	selKinds := []int{gen.KindIndex("Select"), gen.KindIndex("Explain")}
 	mon.Parallel(n, c.Workers, func(i int) {
 		local := map[string]int64{}
-		gc := genCase(c.Seed, "c19.select", i, selKinds[i%2], -1, gen.Opts{SubqDepth: 5, SubqProb: 0.5, MaxDepth: 1}, "random")
-		c19One(c, gc, "select", local)
+		// every other pair of cases draws its databases from a pool of three and
+		// gives subqueries INTO clauses: one database is then written and read,
+		// in either order, at several depths of the same statement
+		opt := gen.Opts{SubqDepth: 5, SubqProb: 0.5, MaxDepth: 1}
+		sub := "select"
+		if i%4 >= 2 {
+			opt.FewDBs, opt.SubqInto = true, 0.3
+			sub = "select-few-dbs"
+			local["few-dbs"]++
+		}
+		gc := genCase(c.Seed, "c19.select", i, selKinds[i%2], -1, opt, "random")
+		c19One(c, gc, sub, local)
 		r.DistinctStr(gc.Text)
 		if i < 4 {
 			if st, err := influxql.ParseStatement(gc.Text); err == nil {
